@@ -578,7 +578,7 @@ def generate(rng, tier, outdir):
     w.SHARD = 160
     quick = tier == "quick"
     n_main = 640 if quick else 6000
-    n_deep = 40 if quick else 400
+    n_deep = 40 if quick else 240
     n_bad = 200 if quick else 1500
     n_tol = 160 if quick else 1500
     n_multi = 60 if quick else 600
@@ -625,7 +625,7 @@ def generate(rng, tier, outdir):
             ncl = int(rng.integers(1, 6))
             mode = "deep"
             case = dict(nq=nq, ncl=ncl, qregs=split_regs(rng, nq), cregs=split_regs(rng, ncl),
-                        prog=rand_prog(rng, nq, ncl, 20, mode, 10 if quick else 12))
+                        prog=rand_prog(rng, nq, ncl, 20, mode, 10 if quick else 11))
         case["kind"] = "sim"
         if not _try_run(w, case, sampler):
             continue
